@@ -228,14 +228,25 @@ def base_specs(draw, tier):
     return spec
 
 
+def upper_terminal(draw, spec):
+    """One time in ten a terminal becomes an upper-case letter that is not a variable of this grammar (but is one of other grammars handled by the same process)."""
+    if draw(st.integers(0, 9)) or not spec["T"]:
+        return spec
+    free = [x for x in "XYZWV" if x not in spec["V"]]
+    if not free:
+        return spec
+    old, new = spec["T"][0], free[draw(st.integers(0, len(free) - 1))]
+    return dict(spec, T=[new if t == old else t for t in spec["T"]], R=[[A, [new if x == old and x not in spec["V"] else x for x in rhs]] for A, rhs in spec["R"]])
+
+
 @st.composite
 def full_cases(draw, tier):
-    return {"cfg": draw(base_specs(tier)), "id_offset": draw(st.integers(0, 14))}
+    return {"cfg": upper_terminal(draw, draw(base_specs(tier))), "id_offset": draw(st.integers(0, 14))}
 
 
 @st.composite
 def phase_cases(draw, tier):
-    spec = draw(base_specs(tier))
+    spec = upper_terminal(draw, draw(base_specs(tier)))
     hint = draw(st.sampled_from(["S", "S0", "Z", spec["V"][0], spec["V"][-1], "S'"]))
     return {"cfg": spec, "phase": draw(st.integers(1, 5)), "hint": hint, "id_offset": draw(st.integers(0, 14))}
 
